@@ -1631,6 +1631,13 @@ pub fn run(words: &[&str]) -> String {
     if words.first() == Some(&"nondet") {
         return run_nondet(words);
     }
+    // wrapped <ann|box> <ms> <script> <rseed> <objs> <bodies>: the same run with the scripted scheduler inside one of the
+    // transparent wrappers; what the scripted scheduler sees and answers is logged as usual
+    let (wrapper, words) = if words.first() == Some(&"wrapped") && words.len() == 7 {
+        (Some(words[1]), &words[1..])
+    } else {
+        (None, words)
+    };
     let [_, ms, script, rseed, objs, bodies] = words else {
         return "ERR bad case".to_string();
     };
@@ -1656,11 +1663,18 @@ pub fn run(words: &[&str]) -> String {
     LOG.with(|l| l.borrow_mut().clear());
     LAST_TASK.with(|c| c.set(0));
     let p2 = prog.clone();
-    let res = catch_unwind(AssertUnwindSafe(|| {
-        Runner::new(sched, config).run(move || {
-            let objs = start_exec(&p2);
-            run_body(p2.clone(), objs, 0);
-        })
+    let body = move || {
+        let objs = start_exec(&p2);
+        run_body(p2.clone(), objs, 0);
+    };
+    let res = catch_unwind(AssertUnwindSafe(|| match wrapper {
+        None => Runner::new(sched, config).run(body),
+        Some("ann") => Runner::new(shuttle_schedulers::AnnotationScheduler::new(sched), config).run(body),
+        Some("box") => {
+            let b: Box<dyn Scheduler + Send> = Box::new(sched);
+            Runner::new(b, config).run(body)
+        }
+        Some(_) => panic!("vharness: unknown wrapper"),
     }));
     let recorded = CurrentSchedule::get_schedule();
     let term = match res {
